@@ -22,7 +22,10 @@ RULE = ("Hypothesis rule-based state machine generates histories (up to 40 steps
         "twice with a state-changing step in between; distinct by SHA-1 of the history. Sub-check order_swap: for every catalogue entry two data "
         "sets x 4 (8) argument variants are run in the orders A..B.., B..A.., interleaved and descending, each history in a child forked from the same state, plus a history in which every call is made twice on fresh "
         "argument objects with the arrays of the first result overwritten in place in between: "
-        "every call must give the same digest in all four (state kept between calls and keyed on part of the arguments shows up as order dependence).")
+        "every call must give the same digest in all four (state kept between calls and keyed on part of the arguments shows up as order dependence). "
+        "Sub-check file_history: the only seeded routine that reads a file, anova / ANOVA(fpath=...): the same model saved by two objects with drawn seeds and "
+        "0..3 sample() / cores() draws behind them, and the model built in memory, must give bit-identical cores for the same int seed / leave an equal "
+        "Generator in the same state; non-trivial there = noise > 0.")
 TOLERANCES = "exact (SHA-1 of bytes)"
 ASSUMPTIONS = ["single-threaded BLAS (OMP/OPENBLAS/MKL_NUM_THREADS=1) so that LAPACK results are bit-reproducible",
                "int and Generator spellings of the same seed are NOT required to agree (sample_tt and sample_square's retry re-seed from an int)",
@@ -485,10 +488,73 @@ def enum_order(tier, shard, nshards):
             j += 1
 
 
+# ------------------------------------------------------------------------------------------- seeded routine fed from a file (history = who wrote the file)
+
+@st.composite
+def file_cases(draw, tier):
+    n = [draw(st.integers(2, 4)) for _ in range(draw(st.integers(2, 4)))]
+    return {"n": n, "m": draw(st.integers(12, 40)), "dseed": draw(st.integers(0, 10 ** 6)), "order": draw(st.integers(1, 2)), "r": draw(st.integers(2, 4)),
+            "noise": draw(st.sampled_from([1e-10, 1e-10, 1e-3, 1.0, 0.0])), "seed": draw(st.sampled_from(SEEDS + [7, 12345])),
+            "writers": [(draw(st.sampled_from([None, 0, 1, 5, 99])), draw(st.integers(0, 3)), draw(st.booleans())) for _ in range(2)],
+            "spelling": draw(st.sampled_from(["anova", "anova", "ANOVA"]))}
+
+
+def prop_file(case, ctx):
+    """`anova(None, None, r, order, noise, seed, fpath)` / `ANOVA(fpath=...)`: the model comes from a file another object wrote.  Two
+    files holding the same model, written by objects with different seeds and different numbers of random draws behind them, and the
+    model built in memory from the same data must give bit-identical cores for the same seed; a Generator is the only source of
+    random numbers (its state afterwards is that of a twin used on the in-memory model) and the global stream is not touched."""
+    import os, tempfile, shutil
+    n, order, r, noise, s = case["n"], case["order"], case["r"], case["noise"], case["seed"]
+    rng = np.random.default_rng(case["dseed"])
+    It = ac.cover_idx(rng, n, case["m"])
+    yt = rng.normal(size=len(It))
+
+    def run(seed, fpath=None):
+        a = (None, None) if fpath else (It, yt)
+        if case["spelling"] == "anova":
+            return teneva.anova(*a, r, order, noise, seed, fpath)
+        return teneva.ANOVA(*a, order, seed, fpath).cores(r, noise)
+
+    ctx.label("spelling:" + case["spelling"], f"order={order}", f"noise={noise:g}")
+    ctx.nontrivial(noise > 0)
+    tmp = tempfile.mkdtemp(prefix="c10file")
+    try:
+        paths = []
+        for j, (wseed, draws, use_cores) in enumerate(case["writers"]):
+            w = ctx.lib(teneva.ANOVA, It, yt, order, wseed)
+            for _ in range(draws):
+                ctx.lib(w.sample)
+            if use_cores:
+                ctx.lib(w.cores, 2, 1e-3)
+            paths.append(os.path.join(tmp, f"model{j}.pickle"))
+            ctx.lib(w.save, paths[-1])
+        np.random.seed(4321)
+        g0 = global_state_bytes()
+        ref = digest_of(ctx.lib(run, s))
+        got = [digest_of(ctx.lib(run, s, p)) for p in paths]
+        ctx.check(got[0] == got[1], "anova(seed, fpath): two files holding the same model (written by objects with different random histories) "
+                  "give different results for the same seed", seed=s, writers=case["writers"], digests=got)
+        ctx.check(got[0] == ref, "anova(seed, fpath): the result differs from that of the model built in memory from the same data with the same seed",
+                  seed=s, from_file=got[0], in_memory=ref)
+        other = digest_of(ctx.lib(run, s + 1, paths[0]))
+        ctx.check(other == digest_of(ctx.lib(run, s + 1)), "anova(seed, fpath): the result differs from that of the model built in memory (second seed)", seed=s + 1)
+        ga, gb = np.random.default_rng(s), np.random.default_rng(s)
+        da, db = digest_of(ctx.lib(run, ga, paths[1])), digest_of(ctx.lib(run, gb))
+        ctx.check(da == db, "anova(Generator, fpath): result differs from that of an equal Generator on the model built in memory", from_file=da, in_memory=db)
+        ctx.check(digest_of(ga.bit_generator.state) == digest_of(gb.bit_generator.state), "anova(Generator, fpath): the Generator was not advanced as on the "
+                  "model built in memory (the random numbers came from somewhere else)")
+        ctx.check(global_state_bytes() == g0, "anova(seed, fpath) touched the global NumPy stream")
+        ctx.inner(4)
+    finally:
+        shutil.rmtree(tmp, ignore_errors=True)
+
+
 SUBCHECKS = [
     Sub("neighbours", prop_history, enumerate=enum_neighbours, exhaustive=True),
     Sub("default_dict_pairs", prop_history, enumerate=enum_default_pairs, exhaustive=True),
     Sub("histories", prop_history, custom=custom),
     Sub("sweep", prop_history, enumerate=enum_sweep, exhaustive=True),
     Sub("order_swap", prop_order, enumerate=enum_order, exhaustive=True),
+    Sub("file_history", prop_file, strategy=file_cases, quick=30, thorough=300),
 ]
